@@ -89,6 +89,19 @@ US5 == UStruct("US5", <<U8, UE1>>)
 X_us2_u16 == Flex(US2, U16)
 X_ue1_u8  == Flex(UE1, U8)
 
+\* ---- definitions the #[flat] macro must reject (compile error) ------------------------------------
+\* A portable definition may only contain portable fields (C17); a sized definition only sized fields;
+\* only the last field of an unsized struct / of a variant may be unsized.
+NegCatalog == <<
+  [id |-> "N1", t |-> Portable(Struct("N1", <<LeU16, U32>>)),                        why |-> "portable struct whose last field is a native u32"],
+  [id |-> "N2", t |-> Portable(Struct("N2", <<U32, LeU16>>)),                        why |-> "portable struct whose first field is a native u32"],
+  [id |-> "N3", t |-> Portable(UStruct("N3", <<U8, Vec(LeU16, U32)>>)),              why |-> "portable unsized struct whose tail has a native length type"],
+  [id |-> "N4", t |-> Portable(UEnum("N4", 1, << <<>>, <<LeU16, U16>> >>)),          why |-> "portable unsized enum with a native field last in a variant"],
+  [id |-> "N5", t |-> Portable(UEnum("N5", 1, << <<>>, <<U8, Vec(U16, U8)>> >>)),    why |-> "portable unsized enum whose variant ends in a vector of native u16"],
+  [id |-> "N6", t |-> Struct("N6", <<U8, Vec(U8, U8)>>),                             why |-> "sized struct with an unsized field"],
+  [id |-> "N7", t |-> UStruct("N7", <<Vec(U8, U8), Vec(U8, U8)>>),                   why |-> "unsized struct with an unsized field that is not the last"]
+>>
+
 C(id, t) == [id |-> id, t |-> t]
 
 Catalog == <<
